@@ -3,7 +3,7 @@
    witnesses for the defects that the faithful model reproduces. *)
 From Coq Require Import QArith Qring Qfield Setoid Morphisms Lia List ZArith NArith Bool.
 From SE Require Import C31.VisitorModel.
-From SE Require Import C31.SeriesSpec C31.Invert C31.LogAtan C31.Exp C31.Nthroot.
+From SE Require Import C31.SeriesSpec C31.Invert C31.LogAtan C31.Exp C31.Nthroot C31.Hyp.
 Local Open Scope Q_scope.
 
 (* ------------------------------------------------------------------ primitives *)
@@ -182,6 +182,39 @@ Proof.
   - exact HR.
   - apply peq_eqn. exact Yd.
   - rewrite R0, Y0. reflexivity.
+Qed.
+
+(* ------------------------------------------------------------------ sinh / cosh *)
+Theorem sinh_cosh_spec_b s prec :
+  wfb s = true -> const0 s = true -> prec_ok prec = true ->
+  exists rs rc, series_sinh s prec = Ok rs /\ series_cosh s prec = Ok rc /\
+    wf rs /\ wf rc /\ den rs O == 0 /\ den rc O == 1 /\
+    eqn (N.to_nat prec - 1) (pD (den rs)) (pD (den s) * den rc)%ps /\
+    eqn (N.to_nat prec - 1) (pD (den rc)) (pD (den s) * den rs)%ps.
+Proof.
+  intros W H Hp. apply sinh_cosh_spec;
+    [apply wfb_wf; exact W|apply const0_coef; assumption|apply prec_ok_lt; exact Hp].
+Qed.
+
+Theorem sinh_cosh_taylor s prec rs rc (ys yc : ps) :
+  wfb s = true -> const0 s = true -> prec_ok prec = true ->
+  series_sinh s prec = Ok rs -> series_cosh s prec = Ok rc ->
+  ys O == 0 -> yc O == 1 ->
+  pD ys =p (pD (den s) * yc)%ps -> pD yc =p (pD (den s) * ys)%ps ->
+  eqn (N.to_nat prec) (den rs) ys /\ eqn (N.to_nat prec) (den rc) yc.
+Proof.
+  intros W H Hp Es Ec Ys0 Yc0 Yds Ydc.
+  destruct (sinh_cosh_spec_b s prec W H Hp) as (rs' & rc' & Es' & Ec' & _ & _ & S0 & C0 & HS & HC).
+  rewrite Es in Es'. inversion Es'; subst rs'. rewrite Ec in Ec'. inversion Ec'; subst rc'.
+  assert (Hlt := prec_ok_lt prec Hp).
+  replace (N.to_nat prec) with (S (N.to_nat prec - 1)) by lia.
+  apply (ode_unique_pair (pD (den s)) 1).
+  - exact HS.
+  - rewrite HC. apply peq_eqn. intros k; unfold pscale; ring.
+  - apply peq_eqn. exact Yds.
+  - rewrite Ydc. apply peq_eqn. intros k; unfold pscale; ring.
+  - rewrite S0, Ys0. reflexivity.
+  - rewrite C0, Yc0. reflexivity.
 Qed.
 
 (* ------------------------------------------------------------------ refutations *)
